@@ -198,7 +198,8 @@ class LogsProfile:
                 steps.append({"kind": "damaged", "text": rnd.choice([txt[:rnd.randrange(len(txt))], "logs { \"core.info\" ", "\x00\x01garbage", ""])})
         plan = {"profile": "logs", "steps": steps, "adv": [rnd.choice([0, 0, 1, 59, 3600, 86399]) for _ in steps],
                 # in half of the runs some messages are long: up to and beyond log_vmessage()'s 1023 bytes
-                "long": rnd.randrange(1, 1 << 30) if rnd.random() < 0.5 else 0}
+                "long": rnd.randrange(1, 1 << 30) if rnd.random() < 0.5 else 0,
+                "fatal_end": rnd.choice(FACS) if rnd.random() < 0.3 else None}
         return plan, self.run(plan, tag)
 
     def run(self, plan, tag):
@@ -216,6 +217,8 @@ class LogsProfile:
         res.transcript.append(("conf", render(first["ents"])))
         h = H.Host(conf, scratch)
         emitted = []
+        fatal_exit = False
+        lost = False        # an accidentally valid damaged file is in force: the routing is no longer known
         rotated = []        # (file, path it was moved to, size at that moment)
         nonce = [0]
         now = [0]
@@ -275,6 +278,7 @@ class LogsProfile:
                     ok = any(n == "CONFREAD 0" for n in rep.notes)
                     res.transcript.append(("damaged-reload", s["text"][:300], rep.notes))
                     if ok:
+                        lost = True
                         break       # by accident valid: the model cannot follow, end the run
                     res.extra["failed_reloads"] += 1
                 else:
@@ -305,7 +309,21 @@ class LogsProfile:
                     res.extra["sections_omitted"] = res.extra.get("sections_omitted", 0) + int(cur is None)
                     res.extra["entries_ignored"] += sum(1 for n, _ in (cur or []) if parse_entry(n) is None)
                 emit_all(rt, "step %d" % si)
-            if not h.dead:
+            if not h.dead and plan.get("fatal_end") and not lost:
+                # the daemon's dying message: severity fatal is routed like any other, then the process exits
+                fac = plan["fatal_end"]
+                nonce[0] += 1
+                tok = "nonce%dx" % nonce[0]
+                texts[tok] = tok
+                exp = collections.Counter(rt.get((fac, 5), {}))
+                exp.update(rt.get(("*", 5), {}))
+                emitted.append((tok, fac, 5, exp, now[0]))
+                res.extra["fatal_messages"] = 1
+                try:
+                    h.log(fac, 5, tok)
+                except H.HostDied:
+                    fatal_exit = True
+            elif not h.dead:
                 h.sig("HUP")
         except (H.HostDied, H.HostHang) as ex:
             died = type(ex).__name__
@@ -315,6 +333,8 @@ class LogsProfile:
         res.ubsan = ex.ubsan
         if ex.asan:
             viol.append(Violation(("C18",), "memory-error", "AddressSanitizer: %s in %s" % (ex.asan, ex.asan_frames[:5])))
+        elif fatal_exit and not died and ex.rc == 1:
+            pass        # log_message(..., LOG_FATAL, ...) ends the process with status 1 by design
         elif died or ex.rc != 0 or not ex.teardown:
             viol.append(Violation(("C18",), "died", "daemon died or exited uncleanly during a logs-section history: rc=%s %s" % (ex.rc, ex.stderr[-300:])))
         content = {}
